@@ -53,8 +53,10 @@ type Gen struct {
 	NoHidden    bool // no error arguments in format calls
 	NoPlusV     bool // no %+v of an error inside a message (it embeds stack traces)
 	NoUserAnnot bool // no unregistered user types that carry hints / details
-	forceUnsafe int  // >0 while generating the arguments of fmt.Errorf: no channel is safe
-	inRef       int  // >0 while generating the reference of a Mark: nothing in it is a safe channel
+	MaxSize     int  // upper bound on the size of a generated tree (0 = none)
+	nest        int
+	forceUnsafe int // >0 while generating the arguments of fmt.Errorf: no channel is safe
+	inRef       int // >0 while generating the reference of a Mark: nothing in it is a safe channel
 	UTokens     []string
 	STokens     []string
 	Stats       map[string]int
@@ -437,8 +439,50 @@ func (g *Gen) Multi(depth int) *R {
 	}
 }
 
-// Tree generates a recipe of at most the given depth.
+// Size counts the constructor applications of a recipe.
+func (r *R) Size() int {
+	n := 1
+	for _, k := range r.Kids {
+		n += k.Size()
+	}
+	for _, p := range r.Fmt {
+		if p.R != nil {
+			n += p.R.Size()
+		}
+	}
+	return n
+}
+
+// Tree generates a recipe of at most the given depth (and at most MaxSize
+// constructor applications when MaxSize > 0: the cost of evaluating the model
+// grows with the cube of the size, and large trees add no new local behaviour).
 func (g *Gen) Tree(depth int) *R {
+	if g.MaxSize > 0 && g.nest == 0 {
+		g.nest++
+		defer func() { g.nest-- }()
+		for {
+			st := snapshotTokens(g)
+			r := g.tree(depth)
+			if r.Size() <= g.MaxSize {
+				return r
+			}
+			restoreTokens(g, st)
+			if depth > 1 {
+				depth--
+			}
+		}
+	}
+	return g.tree(depth)
+}
+
+type tokState struct{ nu, ns int }
+
+func snapshotTokens(g *Gen) tokState { return tokState{len(g.UTokens), len(g.STokens)} }
+func restoreTokens(g *Gen, s tokState) {
+	g.UTokens, g.STokens = g.UTokens[:s.nu], g.STokens[:s.ns]
+}
+
+func (g *Gen) tree(depth int) *R {
 	if depth <= 0 {
 		return g.Leaf(0)
 	}
